@@ -54,7 +54,8 @@ type c16Vars struct {
 	idx              map[types.Object]bool
 }
 
-func c16VarsOf(info *types.Info, fd *ast.FuncDecl) c16Vars {
+func c16VarsOf(pkg *packages.Package, fd *ast.FuncDecl) c16Vars {
+	info := pkg.TypesInfo
 	v := c16Vars{idx: map[types.Object]bool{}}
 	ast.Inspect(fd.Body, func(n ast.Node) bool {
 		switch x := n.(type) {
@@ -64,8 +65,7 @@ func c16VarsOf(info *types.Info, fd *ast.FuncDecl) c16Vars {
 				if !ok {
 					continue
 				}
-				if sel, ok := call.Fun.(*ast.SelectorExpr); ok && call.Ellipsis.IsValid() && len(call.Args) > 0 &&
-					(strings.HasPrefix(sel.Sel.Name, "MapStringsToUUIDs") || sel.Sel.Name == "MapUUIDsToStrings") {
+				if call.Ellipsis.IsValid() && len(call.Args) > 0 && isBatchMapCall(pkg, call, 0) {
 					v.batch = objOf(info, call.Args[len(call.Args)-1])
 					if i < len(x.Lhs) {
 						v.read = objOf(info, x.Lhs[0])
@@ -465,7 +465,7 @@ func runC16(c *Ctx) {
 			r.Undecide("R16.1", fname, "anchor", "", "not found")
 			continue
 		}
-		vars := c16VarsOf(pkg.TypesInfo, fd)
+		vars := c16VarsOf(pkg, fd)
 		if vars.batch == nil || vars.read == nil || vars.res == nil || len(vars.idx) == 0 {
 			r.Undecide("R16.1", fname, "batch variables", p.Pos(fd.Pos()), "cannot identify the batch handed to the mapping manager, the slice its result is read from, the result slice and the tuple index")
 			continue
@@ -552,7 +552,7 @@ func r162single(c *Ctx, pkg *packages.Package) {
 	// FromQuery: every registration is func(i int) func(){...}(len(s)-1) right after an append to s
 	if fd := core.FuncDecl(pkg, "Mapper.FromQuery"); fd != nil {
 		info := pkg.TypesInfo
-		vars := c16VarsOf(info, fd)
+		vars := c16VarsOf(pkg, fd)
 		n, bad := 0, []string{}
 		if vars.batch == nil {
 			bad = append(bad, "cannot identify the batch handed to the mapping manager")
@@ -616,7 +616,7 @@ func r162single(c *Ctx, pkg *packages.Package) {
 		}
 		var evs []ev
 		info := pkg.TypesInfo
-		vars := c16VarsOf(info, fd)
+		vars := c16VarsOf(pkg, fd)
 		ast.Inspect(fd.Body, func(nd ast.Node) bool {
 			switch x := nd.(type) {
 			case *ast.AssignStmt:
@@ -987,8 +987,22 @@ func strideMatchesChunk(c *Ctx, rule string) {
 							}
 						case *ssa.Slice:
 							if x.Low != nil && core.ValueOrigin(x.Low) == ssa.Value(ph) && x.High != nil {
-								if bo, ok := x.High.(*ssa.BinOp); ok && bo.Op == token.ADD {
-									bounds = append(bounds, bo.Y)
+								highs := []ssa.Value{x.High}
+								// i : min(i+N, len(xs)) - the window is cut at the end of the list
+								if mc, ok := x.High.(*ssa.Call); ok {
+									if bi, ok := mc.Call.Value.(*ssa.Builtin); ok && bi.Name() == "min" {
+										highs = mc.Call.Args
+									}
+								}
+								for _, h := range highs {
+									if bo, ok := h.(*ssa.BinOp); ok && bo.Op == token.ADD {
+										switch {
+										case core.ValueOrigin(bo.X) == ssa.Value(ph):
+											bounds = append(bounds, bo.Y)
+										case core.ValueOrigin(bo.Y) == ssa.Value(ph):
+											bounds = append(bounds, bo.X)
+										}
+									}
 								}
 							}
 						}
@@ -1115,4 +1129,63 @@ func inputStringsNotWritten(c *Ctx, rule string) {
 	if n < 2 {
 		r.Undecide(rule, "", "storage-side string-to-UUID functions", "", fmt.Sprintf("%d found (floor 2)", n))
 	}
+}
+
+// isBatchMapCall: the call hands a batch to the mapping manager: MapStringsToUUIDs[ReadOnly] /
+// MapUUIDsToStrings, or a function of the package that only forwards its variadic parameter to
+// such a call and returns what that returns (the ReadOnly choice extracted into a helper).
+func isBatchMapCall(pkg *packages.Package, call *ast.CallExpr, depth int) bool {
+	info := pkg.TypesInfo
+	var id *ast.Ident
+	switch f := unparen(call.Fun).(type) {
+	case *ast.SelectorExpr:
+		id = f.Sel
+	case *ast.Ident:
+		id = f
+	}
+	if id == nil {
+		return false
+	}
+	if strings.HasPrefix(id.Name, "MapStringsToUUIDs") || id.Name == "MapUUIDsToStrings" {
+		return true
+	}
+	fo, ok := info.Uses[id].(*types.Func)
+	if !ok || depth >= 2 || fo.Pkg() != pkg.Types {
+		return false
+	}
+	sig := fo.Type().(*types.Signature)
+	if !sig.Variadic() {
+		return false
+	}
+	var fd *ast.FuncDecl
+	for _, f := range pkg.Syntax {
+		for _, d := range f.Decls {
+			if x, ok := d.(*ast.FuncDecl); ok && info.Defs[x.Name] == fo {
+				fd = x
+			}
+		}
+	}
+	if fd == nil || fd.Body == nil {
+		return false
+	}
+	vpar := sig.Params().At(sig.Params().Len() - 1)
+	n, all := 0, true
+	ast.Inspect(fd.Body, func(nd ast.Node) bool {
+		switch x := nd.(type) {
+		case *ast.FuncLit:
+			return false
+		case *ast.ReturnStmt:
+			n++
+			if len(x.Results) != 1 {
+				all = false
+				return true
+			}
+			c2, ok := unparen(x.Results[0]).(*ast.CallExpr)
+			if !ok || !c2.Ellipsis.IsValid() || len(c2.Args) == 0 || objOf(info, c2.Args[len(c2.Args)-1]) != types.Object(vpar) || !isBatchMapCall(pkg, c2, depth+1) {
+				all = false
+			}
+		}
+		return true
+	})
+	return n > 0 && all
 }
